@@ -207,10 +207,36 @@ def teardown(ctx):
     shutil.rmtree(ctx.state["tmp"], ignore_errors=True)
 
 
+def boundary_records():
+    """sel/main records whose PRESENT values sit at data boundaries: float nan / +-inf / -0.0, empty text / bytes / lists,
+    0 / False, huge and most negative integers, datetime min / max, empty path / uri, unset digest, 0.0.0.0 and ::,
+    /0 networks, None-valued fields."""
+    import datetime as dt
+
+    from flow.record.fieldtypes import command, path
+
+    D = selgen.descriptors()
+    utc = dt.timezone.utc
+    sub0 = D["sel/sub"](ss="", sn=0, sip="0.0.0.0", su="")
+    common = dict(u16=0, u32=0, fs=0, mode=0, port=0, uport=0, b=False, s="", t="", w="", by=b"", l=[], sl=[], nl=[], ips=[], pl=[],
+                  u="", p=path.from_posix(""), dy=0, dl=[], subs=[])
+    variants = [
+        dict(common, n=0, m=0, f=float("nan"), d=dt.datetime.min.replace(tzinfo=utc), ip="0.0.0.0", ip2="::", nw="0.0.0.0/0", nw2="::/0",
+             ip4="0.0.0.0", sub=sub0),
+        dict(common, n=2**200, m=2**64, u16=65535, u32=2**32 - 1, fs=2**63, port=65535, f=float("inf"), d=dt.datetime.max.replace(tzinfo=utc),
+             ip="::", ip2="255.255.255.255", nw="::/0", nw2="0.0.0.0/32", ip4="255.255.255.255", dy="", b=True, cmd=command.from_posix("x")),
+        dict(common, n=-(2**63), m=-1, f=-0.0, ip="0.0.0.0", nw="0.0.0.0/0", dy=b"", dg=(None, None, None), l=[""], sl=[""], nl=[0], subs=[sub0]),
+        dict(f=float("-inf")),                                       # every other field unset (None / empty default)
+        dict(common, n=1, m=2, f=float("nan"), s="Hello", t="x", ip="10.0.0.1", nw="10.0.0.0/8", d=dt.datetime(2020, 1, 1, tzinfo=utc), dy=False),
+        dict(common, n=0, m=0, f=0.0, dy=[]),
+    ]
+    return [D["sel/main"](**v) for v in variants]
+
+
 def pool_for(ctx, seed):
     pools = ctx.state["pools"]
     if seed not in pools:
-        pools[seed] = selgen.record_pool(random.Random(seed))
+        pools[seed] = boundary_records() if seed == "boundary" else selgen.record_pool(random.Random(seed))
     return pools[seed]
 
 
@@ -275,7 +301,8 @@ def generate(ctx):
     recsets = [(TABLE_POOL_SEED, ri) for ri in (0, 6)]
     if not ctx.quick:
         recsets += [(TABLE_POOL_SEED, ri) for ri in (1, 2, 3, 4, 5, 7, 8, 9)]
-        recsets += [(subseed("c08", ctx.seed, "pool", j), ri) for j in range(6) for ri in range(10)]
+        recsets += [(subseed("c08", ctx.seed, "pool", j), ri) for j in range(4) for ri in range(10)]
+    recsets += [("boundary", ri) for ri in range(6)]   # present operands at data boundaries (same for every seed)
     idx = 0
     for pool_seed, ri in recsets:
         for op, pos, kind, src, container, cmp_src in table_rows():
@@ -283,6 +310,8 @@ def generate(ctx):
                 yield {"k": "table", "op": op, "pos": pos, "kind": kind, "other": src, "container": container, "cmp": cmp_src,
                        "pool": pool_seed, "rec": ri}
             idx += 1
+        if pool_seed == "boundary":
+            continue   # derived operands and helpers do not look at the present values
         for category, dsrc in DERIVED:
             for op in OPS[:6] + ["in"] + (["not in"] if category.startswith("format") or category == "helper" else []):
                 for o in DERIVED_OTHERS:
@@ -497,6 +526,10 @@ def stream_templates():
         add("r.f %s 1.5" % op, op, "L", "1.5", wrap=False)
         add("r.t %s 'b'" % op, op, "L", "'b'", wrap=False)
         add("r.m %s r.zz" % op, op, "R", "r.m", wrap=False)          # missing everywhere on the right
+    for op in OPS[:6]:
+        add("r.f %s r.k" % op, op, "R", "r.f", wrap=False)           # present float (nan / inf / -0.0 among them) vs a field missing there
+        add("r.k %s r.f" % op, op, "L", "r.f", wrap=False)
+        add("r.s %s r.t" % op, op, "R", "r.s", wrap=False)           # present text ('' among them) vs missing
     add("r.k in [1, 2, 3]", "in", "L", "[1, 2, 3]")
     add("r.k not in [1, 2]", "not in", "L", "[1, 2]")
     add("r.t in ['Hello', 'x', 'b']", "in", "L", "['Hello', 'x', 'b']", wrap=False)
@@ -549,7 +582,7 @@ def build_stream(seed, n, base=0, only=None):
             return D["c08/small"](seq=seq, n=rng.choice(I), s=rng.choice(T), l=[rng.choice(T) for _ in range(rng.randint(0, 3))], k=rng.choice(I))
         if kind == 1:
             return D["c08/other"](seq=seq, t=rng.choice(T), nl=[rng.choice(I) for _ in range(rng.randint(0, 4))], ip=rng.choice(STREAM_IPS),
-                                  d=dt.datetime(*rng.choice(selgen.DATES), tzinfo=dt.timezone.utc), f=rng.choice([0.0, 1.5, 100.0]),
+                                  d=dt.datetime(*rng.choice(selgen.DATES), tzinfo=dt.timezone.utc), f=rng.choice([0.0, 1.5, 100.0, float("nan"), float("inf"), -0.0]),
                                   u=rng.choice(selgen.URIS), b=rng.choice([True, False]))
         return D["c08/third"](seq=seq, s=rng.choice(T), m=rng.choice(I), ip=rng.choice(STREAM_IPS), nw=rng.choice(selgen.NETS))
 
